@@ -33,8 +33,10 @@ def make_session(rng, name, length):
             acts.append({'act': 'draw', 'v': rng.randrange(5)})
         elif r < 0.74:
             acts.append({'act': 'gauss', 'v': rng.randrange(3)})
-        elif r < 0.8:
+        elif r < 0.79:
             acts.append({'act': 'demo'})
+        elif r < 0.84:
+            acts.append({'act': 'gmm', 'v': rng.randrange(3)})
         elif r < 0.9:
             acts.append({'act': 'tmpok', 'v': rng.randrange(1000)})
         else:
@@ -74,13 +76,13 @@ def run(out, tier, seed):
     nsess, length = (48, 36) if tier == 'quick' else (480, 60)
     # the reference process: every (data, parameters) once, nothing else
     # reference processes: one per parameter set, every data set once, nothing else before
-    ref_sess = [{'name': f'reference:{p}', 'actions': [{'act': 'run', 'd': d, 'p': p} for d in range(ND)] + [{'act': 'demo'}]} for p in range(NP)]
+    ref_sess = [{'name': f'reference:{p}', 'actions': [{'act': 'run', 'd': d, 'p': p} for d in range(ND)] + [{'act': 'demo'}] + [{'act': 'gmm', 'v': v} for v in range(3)]} for p in range(NP)]
     sessions = ref_sess + [make_session(rng, f'session:{i}', length) for i in range(nsess)]
     recs = run_sessions(sessions, ['0', '1', 'random', '12345'])
     ref = [[0] * NP for _ in range(10)]
     for r in recs[:NP]:
         for e in r['events']:
-            if e['act'] == 'run' or r['name'] == 'reference:0':
+            if e['act'] == 'run' or r['name'] == 'reference:0':        # demo / gmm digests do not depend on the parameter set
                 ref[e['d']][e['p']] = e['res']
     for i, r in enumerate(recs):
         r['tid'] = i + 1
@@ -109,12 +111,12 @@ def run(out, tier, seed):
 
 def replay(path):
     rp = json.load(open(path))['payload']
-    ref_sess = [{'name': f'reference:{p}', 'actions': [{'act': 'run', 'd': d, 'p': p} for d in range(ND)] + [{'act': 'demo'}]} for p in range(NP)]
+    ref_sess = [{'name': f'reference:{p}', 'actions': [{'act': 'run', 'd': d, 'p': p} for d in range(ND)] + [{'act': 'demo'}] + [{'act': 'gmm', 'v': v} for v in range(3)]} for p in range(NP)]
     recs = run_sessions(ref_sess + [rp['session']], ['0'] * NP + [rp.get('hashseed', '1')])
     ref = [[0] * NP for _ in range(10)]
     for r in recs[:NP]:
         for e in r['events']:
-            if e['act'] == 'run' or r['name'] == 'reference:0':
+            if e['act'] == 'run' or r['name'] == 'reference:0':        # demo / gmm digests do not depend on the parameter set
                 ref[e['d']][e['p']] = e['res']
     for i, r in enumerate(recs):
         r['tid'] = i + 1
